@@ -4,6 +4,7 @@ import (
 	"fmt"
 	"math"
 	"sort"
+	"strings"
 
 	"github.com/unixpickle/model3d/model3d"
 	"verif/harness/hlib"
@@ -26,20 +27,26 @@ type dcSetting struct {
 	maxGos, buf, procs int
 	mode               model3d.DualContouringTriangleMode
 	clip               bool
+	repair, jitter     bool
 }
 
 func (s dcSetting) String() string {
-	return fmt.Sprintf("MaxGos=%d BufferSize=%d procs=%d mode=%d clip=%v", s.maxGos, s.buf, s.procs, s.mode, s.clip)
+	res := fmt.Sprintf("MaxGos=%d BufferSize=%d procs=%d mode=%d clip=%v", s.maxGos, s.buf, s.procs, s.mode, s.clip)
+	if s.repair || s.jitter {
+		res += fmt.Sprintf(" repair=%v jitter=%v", s.repair, s.jitter)
+	}
+	return res
 }
 
 func runDCOnce(s model3d.Solid, delta float64, st dcSetting) *model3d.Mesh {
 	d := &model3d.DualContouring{
 		S:            model3d.SolidSurfaceEstimator{Solid: s},
 		Delta:        delta,
-		NoJitter:     true,
+		NoJitter:     !st.jitter,
 		MaxGos:       st.maxGos,
 		BufferSize:   st.buf,
 		Clip:         st.clip,
+		Repair:       st.repair,
 		TriangleMode: st.mode,
 	}
 	var m *model3d.Mesh
@@ -150,14 +157,14 @@ func emitDC(c *hlib.Ctx, s model3d.Solid, delta float64, family string) {
 	c.Stat("c12.dc.family."+family, 1)
 	bufs := []int{0, 1, 4 * row, 5 * row, 6 * row, 7 * row, (nz - 1) * row, nz * row, 1 << 40, row*(4+c.Rng.Intn(nz)) + c.Rng.Intn(row)}
 	settings := []dcSetting{
-		{1, 1, 0, 0, true}, {8, 1, 0, 0, true}, {0, 1, 1, 0, true}, {0, 1, 16, 0, true}, {2, 1 << 40, 0, 0, true}, {0, 0, 0, 0, true},
+		{1, 1, 0, 0, true, false, false}, {8, 1, 0, 0, true, false, false}, {0, 1, 1, 0, true, false, false}, {0, 1, 16, 0, true, false, false}, {2, 1 << 40, 0, 0, true, false, false}, {0, 0, 0, 0, true, false, false},
 	}
 	for i := 0; i < 8; i++ {
 		settings = append(settings, dcSetting{[]int{0, 1, 2, 8}[c.Rng.Intn(4)], bufs[c.Rng.Intn(len(bufs))],
-			[]int{0, 0, 1, 3, 16}[c.Rng.Intn(5)], 0, true})
+			[]int{0, 0, 1, 3, 16}[c.Rng.Intn(5)], 0, true, false, false})
 	}
 	opBase := fmt.Sprintf("c12 dc %d %d %d %s family=%s delta=%v", nx, ny, nz, bitStr(l.bits), family, delta)
-	ref := dcSetting{1, 1 << 40, 0, 0, true}
+	ref := dcSetting{1, 1 << 40, 0, 0, true, false, false}
 	var refHash string
 	mark(opBase + " " + ref.String())
 	refRes := guarded(func() string {
@@ -211,12 +218,12 @@ func emitDC(c *hlib.Ctx, s model3d.Solid, delta float64, family string) {
 			same, "corr:c12 same/dc-exact-coordinates")
 	}
 	// exact-coordinate independence also for the other triangle modes and without clipping
-	for _, v := range []dcSetting{{1, 1 << 40, 0, model3d.DualContouringTriangleModeSharpest, true},
-		{1, 1 << 40, 0, model3d.DualContouringTriangleModeFlattest, true}, {1, 1 << 40, 0, 0, false}} {
+	for _, v := range []dcSetting{{1, 1 << 40, 0, model3d.DualContouringTriangleModeSharpest, true, false, false},
+		{1, 1 << 40, 0, model3d.DualContouringTriangleModeFlattest, true, false, false}, {1, 1 << 40, 0, 0, false, false, false}} {
 		var h0 string
 		mark(fmt.Sprintf("c12 same dcmode nx=%d ny=%d nz=%d bits=%s family=%s delta=%v %s", nx, ny, nz, bitStr(l.bits), family, delta, v.String()))
 		r0 := guarded(func() string { h0 = exactHash(runDCOnce(s, delta, v)); return "ok" })
-		for _, alt := range []dcSetting{{8, 1, 0, v.mode, v.clip}, {0, bufs[2+c.Rng.Intn(6)], 3, v.mode, v.clip}} {
+		for _, alt := range []dcSetting{{8, 1, 0, v.mode, v.clip, false, false}, {0, bufs[2+c.Rng.Intn(6)], 3, v.mode, v.clip, false, false}} {
 			alt := alt
 			var h1 string
 			mark(fmt.Sprintf("c12 same dcmode nx=%d ny=%d nz=%d bits=%s family=%s delta=%v %s", nx, ny, nz, bitStr(l.bits), family, delta, alt.String()))
@@ -230,11 +237,102 @@ func emitDC(c *hlib.Ctx, s model3d.Solid, delta float64, family string) {
 			c.Stat("c12.dc.cases_modes", 1)
 		}
 	}
+	emitDCRepair(c, s, delta, family, nx, ny, nz, bitStr(l.bits), bufs)
+}
+
+// emitDCRepair: Repair=true (singular edges and vertices are pulled apart after the windows have been
+// meshed) and the default jitter: the exact float face multiset must be that of the reference
+// setting for every MaxGos / BufferSize / GOMAXPROCS and for a plain repetition of the reference
+// setting itself.  A panic of the library ("repair point already exists", …) is an outcome like
+// any other: it must be the same one.
+func emitDCRepair(c *hlib.Ctx, s model3d.Solid, delta float64, family string, nx, ny, nz int, bits string, bufs []int) {
+	outcome := func(st dcSetting) string {
+		return guarded(func() string { return exactHash(runDCOnce(s, delta, st)) })
+	}
+	variants := []dcSetting{{1, 1 << 40, 0, 0, true, true, false}, {1, 1 << 40, 0, 0, true, true, true},
+		{1, 1 << 40, 0, 0, false, true, false}, {1, 1 << 40, 0, 0, true, false, true}}
+	// two of the four (clip, repair, jitter) combinations per solid
+	i0 := c.Rng.Intn(len(variants))
+	for _, v := range []dcSetting{variants[i0], variants[(i0+1+c.Rng.Intn(len(variants)-1))%len(variants)]} {
+		base := fmt.Sprintf("c12 same dcrepair nx=%d ny=%d nz=%d bits=%s family=%s delta=%v ", nx, ny, nz, bits, family, delta)
+		mark(base + v.String())
+		ref := outcome(v)
+		if v.repair {
+			plain := v
+			plain.repair = false
+			if outcome(plain) != ref {
+				c.Stat("c12.dc.repair_cases_with_singularities", 1)
+			}
+		}
+		alts := []dcSetting{v, {8, 1, 0, v.mode, v.clip, v.repair, v.jitter},
+			{[]int{0, 1, 2, 8}[c.Rng.Intn(4)], bufs[c.Rng.Intn(len(bufs))], []int{0, 1, 3, 16}[c.Rng.Intn(4)], v.mode, v.clip, v.repair, v.jitter}}
+		for k, alt := range alts {
+			op := base + alt.String()
+			if k == 0 {
+				op += " rep=2"
+			}
+			mark(op)
+			got := outcome(alt)
+			same := "same"
+			if got != ref {
+				same = fmt.Sprintf("diff:ref=%s/this=%s", ref, got)
+			}
+			if strings.HasPrefix(ref, "panic") {
+				c.Stat("c12.dc.repair_reference_panics", 1)
+			}
+			site := "corr:c12 same/dc-repair"
+			if !v.repair {
+				site = "corr:c12 same/dc-jitter"
+			}
+			c.EmitSite(op, same, site)
+			c.Stat("c12.dc.cases_repair_or_jitter", 1)
+		}
+	}
+}
+
+// emitDCRepairRegression: the solid on which fix 08bc264 (second part of 09ce28e) was found: clipping
+// folds two triangles round a singular edge into the same half plane (equal angles), and their
+// pairing used to follow the mesh map's order in about one run of three.  Reference + 9 repetitions.
+func emitDCRepairRegression(c *hlib.Ctx) {
+	n := [3]int{2, 2, 8}
+	v := &voxel3{n: n, v: 2, bits: make([]bool, 32)}
+	for i, ch := range "01110111111100101110111010011000" {
+		v.bits[i] = ch == '1'
+	}
+	st := dcSetting{1, 1 << 40, 0, 0, true, true, false}
+	ref := guarded(func() string { return exactHash(runDCOnce(v, 1, st)) })
+	for rep := 2; rep <= 10; rep++ {
+		alt := st
+		if rep%2 == 1 {
+			alt.maxGos, alt.buf = 8, 1
+		}
+		op := fmt.Sprintf("c12 same dcrepair n=2,2,8 voxel=2 bits=%s family=regression_equal_angles delta=1 %s rep=%d", bitStr(v.bits), alt.String(), rep)
+		mark(op)
+		got := guarded(func() string { return exactHash(runDCOnce(v, 1, alt)) })
+		same := "same"
+		if got != ref {
+			same = fmt.Sprintf("diff:ref=%s/this=%s", ref, got)
+		}
+		c.EmitSite(op, same, "corr:c12 same/dc-repair")
+		c.Stat("c12.dc.cases_repair_or_jitter", 1)
+	}
 }
 
 func runDC(c *hlib.Ctx) {
+	emitDCRepairRegression(c)
 	nSolids := c.N/10 + 2
 	for i := 0; i < nSolids; i++ {
+		if i%4 == 1 {
+			// half-filled random voxels: many cubes touching along an edge or at a corner only, i.e.
+			// many singular edges / vertices that share triangles (what Repair=true works on)
+			n := [3]int{2 + c.Rng.Intn(2), 2 + c.Rng.Intn(2), 2 + c.Rng.Intn(5)}
+			bs := make([]bool, n[0]*n[1]*n[2])
+			for j := range bs {
+				bs[j] = c.Rng.Intn(2) == 0
+			}
+			emitDC(c, &voxel3{n: n, v: 2, bits: bs}, 1, "voxel_half_filled")
+			continue
+		}
 		switch c.Rng.Intn(5) {
 		case 0, 1: // fat voxels, tall: many windows
 			m := 2 + c.Rng.Intn(2)
